@@ -761,7 +761,8 @@ fn crash_class(tl: &Timeline, cp: &crash::CrashPoint, detail: &str) -> String {
 
 pub fn crash_gen(p: &mut Profile) {
     let g = &mut p.gen;
-    g.cb_weights = [45, 20, 10, 20, 3, 2, 0, 0];
+    // crash images are judged by the thousand: small clusters only
+    g.cb_weights = [45, 20, 10, 25, 0, 0, 0, 0];
     g.tiny_cache_pct = 70;
     g.allow_default_params = true;
     g.max_write_clusters = 4;
